@@ -252,6 +252,14 @@ def run_args(spec, rec, lib):
             p = jsonvals.rand_value(rng, 0, 4, 3)
             if type(p) not in (dict, list):
                 p = {"k": [p, {"n": [1, 2]}]}
+            if rng.random() < 0.3:
+                # tuples are among the library's supported serializable types: containers reached THROUGH a tuple are part of the payload
+                inner = jsonvals.rand_value(rng, 0, 2, 3)
+                p = rng.choice([{"ranges": ([1, 2], [3, 4]), "deps": ({"name": "a", "v": inner},), "p": p},
+                                ([1, inner], {"k": "v"}),
+                                [({"a": [1]},), p],
+                                {"t": (1, ("x", [inner, 2]))}])
+                rec.count("wrap_payloads_with_tuples")
             fp_p = boundary.fingerprint(p)
             out = boundary.call(lib, S.wrap_as_signable, p)
             mutated = boundary.fingerprint(p) != fp_p
@@ -299,17 +307,23 @@ def run_args(spec, rec, lib):
 def _mutate_deep(v, rng):
     """in-place change somewhere deep inside a container"""
     cur = v
-    for _ in range(6):
+    for _ in range(8):
+        if type(cur) is tuple and cur:
+            muts = [x for x in cur if type(x) in (dict, list, tuple) and x]
+            if not muts:
+                return
+            cur = rng.choice(muts)
+            continue
         if type(cur) is dict and cur:
             k = rng.choice(list(cur))
-            if type(cur[k]) in (dict, list) and cur[k] and rng.random() < 0.7:
+            if type(cur[k]) in (dict, list) and cur[k] and rng.random() < 0.7 or (type(cur[k]) is tuple and any(type(x) in (dict, list, tuple) for x in cur[k])):
                 cur = cur[k]
                 continue
             cur[k] = "MUTATED"
             return
         if type(cur) is list and cur:
             i = rng.randrange(len(cur))
-            if type(cur[i]) in (dict, list) and cur[i] and rng.random() < 0.7:
+            if type(cur[i]) in (dict, list) and cur[i] and rng.random() < 0.7 or (type(cur[i]) is tuple and any(type(x) in (dict, list, tuple) for x in cur[i])):
                 cur = cur[i]
                 continue
             cur[i] = "MUTATED"
